@@ -1107,3 +1107,59 @@ MUTANTS = MUTANTS + _front.MUTANTS
 BOUNDED = BOUNDED + _front.BOUNDED
 TRUSTED = TRUSTED + _front.TRUSTED
 NOT_COVERED = NOT_COVERED + _front.NOT_COVERED
+
+
+# ------------------------------------------------------------------ directives in TEMPLATED files (bounded, labelled)
+def bounded_templated_directive_lines(tier="quick", seed=0):
+    """BOUNDED: in a templated file the rendered text has other line numbers than the source (multi-line `{% set %}` / `{# #}`
+    blocks, loops).  Violations are reported at SOURCE lines, so a directive must be placed at the source line of its comment:
+    `-- noqa: X` hides exactly the X violations of its own source line.  Oracle: the unhidden set is the run with disable_noqa;
+    the directive lines are read from the raw source text."""
+    import re
+    from sqlfluff.core import Linter, FluffConfig
+    pre = ["{% set x = 1\n%}\n", "{# a\n   multi-line\n   comment #}\n", "{% for i in [1, 2, 3] %}\n-- {{ i }}\n{% endfor %}\n", "",
+           "{% set y = [\n  1,\n  2\n] %}\n{# c #}\n"]
+    bodies = ["SELECT\n    col_a a, -- noqa: AL02\n    col_b b\nFROM foo\n",
+              "SELECT\n    col_a a,\n    col_b b -- noqa: AL02\nFROM foo\n",
+              "SELECT\n    col_a a, -- noqa\n    col_b b\nFROM foo\n",
+              "SELECT col_a a, col_b b FROM foo -- noqa: AL02\n",
+              "SELECT\n    col_a a, -- noqa: disable=AL02\n    col_b b,\n    col_c c\n-- noqa: enable=AL02\nFROM foo f\n"]
+    failed, samples, ev = [], [], 0
+
+    def run(sql, **over):
+        cfg = FluffConfig(overrides=dict({"dialect": "ansi", "templater": "jinja", "rules": "AL02"}, **over))
+        return sorted((v.rule_code(), v.line_no) for v in Linter(config=cfg).lint_string(sql).get_violations())
+    for p in pre:
+        for b in bodies:
+            sql = p + b
+            ev += 1
+            everything = run(sql, disable_noqa=True)
+            visible = run(sql)
+            lines = sql.split("\n")
+            hidden_lines, rng_on = set(), False
+            for ln, text in enumerate(lines, 1):
+                m = re.search(r"-- noqa(?::\s*(.*))?$", text)
+                arg = (m.group(1) or "").strip() if m else None
+                if m and arg.startswith("disable="):
+                    rng_on = True
+                if m and arg.startswith("enable="):
+                    rng_on = False
+                if rng_on or (m and not arg.startswith(("disable=", "enable="))):
+                    hidden_lines.add(ln)
+            expected = [v for v in everything if v[1] not in hidden_lines]
+            if len(samples) < 3 and p:
+                samples.append({"source": sql, "all": everything, "visible": visible})
+            if visible != expected and not failed:
+                failed.append({"name": "C20/templated/directive-at-source-line", "id": "C20/templated/directive-at-source-line", "kind": "bounded",
+                               "status": "failed", "function": "sqlfluff.core.rules.noqa:IgnoreMask._extract_ignore_from_comment",
+                               "detail": {"source": sql, "violations_without_noqa": everything, "expected_visible": expected, "visible": visible},
+                               "reproduced": True})
+    return {"name": "templated-directive-lines", "bound": f"{len(pre)} jinja prefixes (multi-line set / comment / loop / none) x {len(bodies)} bodies with AL02 violations and noqa directives",
+            "rule": "one evaluation = two lint runs of one template (with and without disable_noqa); non-trivial = prefix changes the line numbering",
+            "evaluations": ev, "distinct_nontrivial": sum(1 for p in pre if p) * len(bodies), "samples": samples, "failed": failed}
+
+
+BOUNDED = BOUNDED + [bounded_templated_directive_lines]
+MUTANTS = MUTANTS + [
+    ("directive_line_from_rendered_position", "sqlfluff/core/rules/noqa.py", "comment.pos_marker.source_position()", "comment.pos_marker.working_loc"),
+]
